@@ -541,4 +541,64 @@ def queries_read_only(repo: Repo) -> RuleRun:
 
 queries_read_only.rule_id = "C16.QUERIES-READ-ONLY"
 
-RULES = [knot_dependence, end_pairing, interface, closest_param_search, stale_alias, none_tests, no_memo, bounds_respected, range_start, no_stale_lazy_cache, unit_axis, deep_copy, queries_read_only]
+def zero_length(repo: Repo) -> RuleRun:
+    """'the length between two parameters is additive over a split' - also when the split is at an end: L(a, a) = 0. Abstract run of
+    DiscreteCurve.get_length (with discretize, Array.__getitem__ and functions.polyline_length below it) on a five-point model for
+    equal, ascending and descending parameters: equal parameters give 0 without an exception, the others reach the polyline sum
+    with the points between the two parameters, in the direction of travel."""
+    from ..peval import Evaluator, NotEvaluable, Obj, Raised, Sym
+
+    r = RuleRun(PROP, "C16.ZERO-LENGTH", floor=6, what="DiscreteCurve.get_length: 0 for equal parameters, otherwise the polyline through the points between the parameters in the direction of travel")
+    cls = repo.cls("construct.curves.discrete.DiscreteCurve")
+    gl = repo.find_method(cls, "get_length")
+    r.require(gl is not None, "DiscreteCurve.get_length vanished")
+    pts = [Sym(f"q{i}") for i in range(5)]
+    summed = []
+
+    def hook(ev, call, name):
+        nm = (name or "").split(".")[-1]
+        if nm == "shape" and call.args:
+            v = ev.eval(call.args[0])
+            if isinstance(v, list):
+                return (len(v), 3)
+        if nm == "flip" and call.args:
+            v = ev.eval(call.args[0])
+            if isinstance(v, list):
+                return list(reversed(v))
+        if nm == "len" and call.args:
+            v = ev.eval(call.args[0])
+            if isinstance(v, Sym):
+                return 3  # a point has three coordinates
+        if nm == "sum" and (name or "").split(".")[0] in ("np", "numpy"):
+            return Sym("polyline-sum")
+        if nm in ("array", "asarray") and call.args:
+            return ev.eval(call.args[0])
+        return NO_MATCH
+
+    for a, b in ((2, 2), (0, 0), (4, 4), (0, 4), (1, 3), (3, 1), (4, 0)):
+        curve = Obj("curve", cls=cls)
+        arr = Obj("array", cls=repo.cls("construct.array.Array"))
+        arr.set("points", list(pts))
+        curve.set("array", arr)
+        curve.set("bounds", (0, 4))
+        ev = Evaluator(repo=repo, module=gl.module, call_hook=hook)
+        ev.opaque_arith = True
+        try:
+            got = ev.call_funcinfo(gl, [curve, a, b])
+            exc = None
+        except Raised as err:
+            got, exc = None, err.exc_name
+        except NotEvaluable as err:
+            raise AnalysisError(f"DiscreteCurve.get_length({a}, {b}) not evaluable on the five-point model: {err}") from err
+        if a == b:
+            ok = exc is None and isinstance(got, (int, float)) and got == 0
+            r.check(ok, gl, f"get_length({a}, {a}) = 0", f"DiscreteCurve.get_length({a}, {a}) {'raises ' + exc if exc else 'returns ' + repr(got)}: the length between equal parameters must be 0 (additivity over a split at an end point; an edge whose two vertices snap to the same curve point has length 0)", gl.node, key=f"length:{a}-{b}")
+        else:
+            ok = exc is None and got is not None and not (isinstance(got, (int, float)) and got == 0)
+            r.check(ok, gl, f"get_length({a}, {b}): polyline through the points in between", f"DiscreteCurve.get_length({a}, {b}) {'raises ' + exc if exc else 'returns ' + repr(got)} on a five-point curve", gl.node, key=f"length:{a}-{b}")
+    return r
+
+
+zero_length.rule_id = "C16.ZERO-LENGTH"
+
+RULES = [knot_dependence, end_pairing, interface, closest_param_search, stale_alias, none_tests, no_memo, bounds_respected, range_start, no_stale_lazy_cache, unit_axis, deep_copy, queries_read_only, zero_length]
